@@ -79,7 +79,7 @@ theorem nodup_triuAux (strict : Bool) (n : Nat) : ∀ (k st : Nat), (triuAux str
 
 /-! ### rows of the usefulness-criterion matrix -/
 section ucmat
-variable {α : Type} [Add α] [Mul α] [Zero α]
+variable {α : Type} [Add α] [Mul α] [Zero α] [LT α] [DecidableLT α]
 
 theorem ucMat_length (sqrt : α → α) (inten : α) (epgc : List α) (bv : Nat → Nat → α) (pvar : List Nat → Nat → α)
     (ntrait : Nat) (xmap : List (List Nat)) : (ucMat sqrt inten epgc bv pvar ntrait xmap).length = xmap.length := by
